@@ -142,50 +142,12 @@ def shard_seed(seed, shard):
     return 1 + 1000003 * (abs(seed) % 2000000) + shard
 
 
-def main():
-    args = sys.argv[1:]
-    if args[:1] == ["--setup"]:
-        ensure_tool("vinstr")
-        log("setup ok")
-        sys.exit(0)
-    if len(args) < 2:
-        log(__doc__)
-        sys.exit(2)
-    prop, tier = args[0], args[1]
-    if prop not in PROPS or tier not in ("quick", "thorough"):
-        log("unknown property/tier")
-        sys.exit(2)
-    cfg = dict(PROPS[prop])
-    cfg.update(cfg.get(tier, {}))
-    replay = None
-    i = 2
-    while i < len(args):
-        if args[i] == "--replay":
-            replay = os.path.abspath(args[i + 1]); i += 2
-        elif args[i] == "--checks":
-            cfg["checks"] = int(args[i + 1]); i += 2
-        elif args[i] == "--shards":
-            cfg["shards"] = int(args[i + 1]); i += 2
-        else:
-            log("unknown argument", args[i]); sys.exit(2)
-    seed = int(os.environ.get("VERIF_SEED", "1") or "1")
-    t0 = time.time()
-    wdir = os.path.join(WORK, "%s-%s" % (prop, tier if not replay else "replay"))
-    shutil.rmtree(wdir, ignore_errors=True)
-    os.makedirs(wdir)
-    binary = build(prop, cfg, wdir)
-
-    known = [k for k in known_findings() if k.get("property") == prop and k.get("status") == "known"]
-    excl = {k["exclude"] for k in known if k.get("exclude")}
-    excl.update(x for x in os.environ.get("VERIF_EXCLUDE_ADD", "").split(",") if x)  # development aid only
-    exclude = ",".join(sorted(excl))
-
+def run_part(prop, tier, cfg, wdir, binary, replay, seed, exclude, t0, limit, state, first=True):
     shards = 1 if replay else int(cfg.get("shards", NCPU))
     checks = int(cfg.get("checks", 1000))
     chunk = int(cfg.get("chunk", 0)) or checks
     if replay:
         chunk = checks
-    # one job = one process; a shard's cases are split into chunks (bounded memory for engines that leak parked goroutines)
     jobs = []
     for s_ in range(shards):
         left, ci = checks, 0
@@ -194,9 +156,7 @@ def main():
             jobs.append({"shard": s_, "chunk": ci, "checks": n, "seed": shard_seed(seed, s_) + 7919 * ci})
             left -= n
             ci += 1
-    limit = float(cfg.get("timeout_s", 1500 if tier == "quick" else 14400))
     memlimit = int(cfg.get("mem_gb", 8)) << 30
-    state = {"timed_out": False}
 
     def run_job(j):
         sdir = os.path.join(wdir, "shard%d_%d" % (j["shard"], j["chunk"]))
@@ -205,7 +165,7 @@ def main():
         env = dict(os.environ)
         env.update({"VERIF_OUT": sdir, "VERIF_TIER": tier, "VERIF_SHARD": str(j["shard"]), "VERIF_SHARDS": str(shards),
                     "VERIF_SEED": str(seed), "VERIF_EXCLUDE": exclude, "VERIF_CHUNK": str(j["chunk"]),
-                    "VERIF_REGRESS": os.path.join(VERIF, "replays", "regress") if (j["shard"] == 0 and j["chunk"] == 0) else "",
+                    "VERIF_REGRESS": os.path.join(VERIF, "replays", "regress") if (first and j["shard"] == 0 and j["chunk"] == 0) else "",
                     "GODEBUG": cfg.get("godebug", "")})
         for k, v in cfg.get("env", {}).items():
             env[k] = str(v)
@@ -253,8 +213,72 @@ def main():
     from concurrent.futures import ThreadPoolExecutor
     with ThreadPoolExecutor(max_workers=shards) as ex:
         done = list(ex.map(run_job, jobs))
+    return [((j["shard"] * 1000 + j["chunk"]), j["dir"], j, cfg) for j in done if "dir" in j], shards
+
+
+def main():
+    args = sys.argv[1:]
+    if args[:1] == ["--setup"]:
+        ensure_tool("vinstr")
+        log("setup ok")
+        sys.exit(0)
+    if len(args) < 2:
+        log(__doc__)
+        sys.exit(2)
+    prop, tier = args[0], args[1]
+    if prop not in PROPS or tier not in ("quick", "thorough"):
+        log("unknown property/tier")
+        sys.exit(2)
+    cfg = dict(PROPS[prop])
+    cfg.update(cfg.get(tier, {}))
+    replay = None
+    cli_override = {}
+    i = 2
+    while i < len(args):
+        if args[i] == "--replay":
+            replay = os.path.abspath(args[i + 1]); i += 2
+        elif args[i] == "--checks":
+            cfg["checks"] = int(args[i + 1]); cli_override["checks"] = int(args[i + 1]); i += 2
+        elif args[i] == "--shards":
+            cfg["shards"] = int(args[i + 1]); cli_override["shards"] = int(args[i + 1]); i += 2
+        else:
+            log("unknown argument", args[i]); sys.exit(2)
+    seed = int(os.environ.get("VERIF_SEED", "1") or "1")
+    t0 = time.time()
+    wdir = os.path.join(WORK, "%s-%s" % (prop, tier if not replay else "replay"))
+    shutil.rmtree(wdir, ignore_errors=True)
+    os.makedirs(wdir)
+    known = [k for k in known_findings() if k.get("property") == prop and k.get("status") == "known"]
+    excl = {k["exclude"] for k in known if k.get("exclude")}
+    excl.update(x for x in os.environ.get("VERIF_EXCLUDE_ADD", "").split(",") if x)  # development aid only
+    exclude = ",".join(sorted(excl))
+
+    parts = cfg.get("parts") or [{}]
+    limit = float(cfg.get("timeout_s", 1500 if tier == "quick" else 14400))
+    state = {"timed_out": False}
+    procs = []
+    total_requested = 0
+    njobs = 0
+    shards_used = 0
+    for pi, part in enumerate(parts):
+        pcfg = dict(cfg)
+        pcfg.update(part)
+        pcfg.update(part.get(tier, {}))
+        for k in ("checks", "shards"):
+            if k in cli_override:
+                pcfg[k] = cli_override[k]
+        pdir = os.path.join(wdir, "part%d" % pi) if len(parts) > 1 else wdir
+        os.makedirs(pdir, exist_ok=True)
+        if replay and len(parts) > 1 and part.get("replay_marker") and part["replay_marker"] not in open(replay).read():
+            continue
+        binary = build(prop, pcfg, pdir)
+        pj, shards = run_part(prop, tier, pcfg, pdir, binary, replay, seed, exclude, t0, limit, state, first=(pi == 0))
+        procs.extend(pj)
+        total_requested += int(pcfg.get("checks", 1000)) * shards
+        njobs += len(pj)
+        shards_used = max(shards_used, shards)
     timed_out = state["timed_out"]
-    procs = [(j["shard"] * 1000 + j["chunk"], j["dir"], j) for j in done if j.get("rc") is not None or "dir" in j]
+    checks, shards, jobs = total_requested, 1, [None] * njobs
 
     # ---- merge
     evals = 0
@@ -266,7 +290,7 @@ def main():
     infra = []
     passed_re = re.compile(r"OK, passed (\d+) tests")
     executed = 0
-    for s, sdir, j in procs:
+    for s, sdir, j, pcfg in procs:
         class P: pass
         p = P(); p.returncode = j.get("rc")
         if not os.path.exists(os.path.join(sdir, "log.txt")):
@@ -302,7 +326,7 @@ def main():
         if p.returncode != 0 and not shard_viol:
             # the process died without recording a violation
             crash = re.search(r"^(panic: .*|fatal error: .*)$", logtxt, re.M)
-            if crash and cfg.get("crash_is_violation") and not timed_out and "VERIF-HARNESS" not in logtxt:
+            if crash and pcfg.get("crash_is_violation") and not timed_out and "VERIF-HARNESS" not in logtxt:
                 cur = os.path.join(sdir, "current_case.json")
                 violations.append({"property": prop, "slot": "crash", "signature": "process-crash", "shard": s,
                                    "message": crash.group(1) + " (process-killing failure; see log)",
@@ -338,10 +362,10 @@ def main():
         "samples": samples[:5] if samples else [],
         "classes": classes,
         "excluded_by_construction": excluded,
-        "cases_requested": checks * shards,
-        "processes": len(jobs),
+        "cases_requested": total_requested,
+        "processes": njobs,
         "rapid_ok_cases": executed,
-        "shards": shards,
+        "shards": shards_used,
         "exhaustive": bool(extra.get("exhaustive", False)) if "exhaustive" in extra else False,
     }
     for k, v in extra.items():
